@@ -70,7 +70,7 @@ contract(
     ensures=[("len", "len(self.sb) == self.size"),
              ("frame", "self.size == old(self.size) and self.resolution == old(self.resolution) "
                        "and self.startDate == old(self.startDate) and self.endDate == old(self.endDate)")],
-    modifies=["Scoreboard.sb", "$region:Scoreboard.sb"],
+    modifies=["Scoreboard.sb@self"],
 )
 
 contract(
@@ -85,6 +85,8 @@ contract(
         ("fields", "self.startDate == start and self.endDate == end and self.resolution == granularity"),
     ],
     calls={"self.clear": ("contract", SB + "::Scoreboard.clear")},
+    modifies=["Scoreboard.sb@self", "Scoreboard.startDate@self", "Scoreboard.endDate@self", "Scoreboard.resolution@self",
+              "Scoreboard.size@self"],
     locals={"sb": List(Slot)},
     replay="scoreboard",
     probes={"start": "secs(start)", "end": "secs(end)", "res": "granularity", "gran": "granularity", "size": "1"},
